@@ -179,12 +179,13 @@ theorem tcp_scan_extract_rsp (buf : Bytes) (f : Tcp.Frame) (loc : Loc)
     Tcp.extractFrame (buf.drop loc.start) f.pdu.length = .ok (some f) :=
   (tcp_attemptRsp_sound _ _ _ (scan_no_later _ buf f loc h).2.2.1).2
 
-/-- two bytes of noise in front of the sample frame: found at start 2, size 12 -/
+/-- two bytes of noise in front of the sample frame: found at start 2, size 12 (offsets 0 and 1 are
+rejected because the protocol id read there is not 0) -/
 example : Tcp.decodeReq ([0x42, 0x43] ++ sampleFrame)
     = .ok (some (⟨0x0102, 0x11, [0x01, 0x00, 0x01, 0x00, 0x02]⟩, ⟨2, 12⟩)) := by decide +kernel
 
-example : Tcp.decodeRsp ([0x42, 0x43] ++ [0x01, 0x02, 0x00, 0x00, 0x00, 0x04, 0x11, 0x01, 0x01, 0x05] ++ [0x00])
-    = .ok (some (⟨0x0102, 0x11, [0x01, 0x01, 0x05]⟩, ⟨2, 10⟩)) := by decide +kernel
+example : Tcp.decodeRsp ([0x42] ++ [0x01, 0x02, 0x00, 0x00, 0x00, 0x04, 0x11, 0x01, 0x01, 0x05] ++ [0x00])
+    = .ok (some (⟨0x0102, 0x11, [0x01, 0x01, 0x05]⟩, ⟨1, 10⟩)) := by decide +kernel
 
 /-- **the property's contrapositives**: a non-zero protocol id, or a length field different from
 PDU length + 1, at a location ⇒ no frame is reported at that location -/
@@ -196,8 +197,10 @@ theorem tcp_no_frame_bad_header_req (buf : Bytes) (f : Tcp.Frame) (loc : Loc)
   intro h
   obtain ⟨_, _, hsz, hl, e2, e3, e45, _⟩ := tcp_scan_sound_req buf f loc h
   rcases hbad with hb | hb
-  · exact hb _ _ (List.getElem?_eq_getElem _) (List.getElem?_eq_getElem _) ⟨e2, e3⟩
-  · refine hb _ _ (List.getElem?_eq_getElem _) (List.getElem?_eq_getElem _) ?_
+  · exact hb buf[loc.start + 2] buf[loc.start + 3] (List.getElem?_eq_getElem _)
+      (List.getElem?_eq_getElem _) ⟨e2, e3⟩
+  · refine hb buf[loc.start + 4] buf[loc.start + 5] (List.getElem?_eq_getElem _)
+      (List.getElem?_eq_getElem _) ?_
     rw [← rd16_toNat, e45, hsz]
 
 theorem tcp_no_frame_bad_header_rsp (buf : Bytes) (f : Tcp.Frame) (loc : Loc)
@@ -208,8 +211,10 @@ theorem tcp_no_frame_bad_header_rsp (buf : Bytes) (f : Tcp.Frame) (loc : Loc)
   intro h
   obtain ⟨_, _, hsz, hl, e2, e3, e45, _⟩ := tcp_scan_sound_rsp buf f loc h
   rcases hbad with hb | hb
-  · exact hb _ _ (List.getElem?_eq_getElem _) (List.getElem?_eq_getElem _) ⟨e2, e3⟩
-  · refine hb _ _ (List.getElem?_eq_getElem _) (List.getElem?_eq_getElem _) ?_
+  · exact hb buf[loc.start + 2] buf[loc.start + 3] (List.getElem?_eq_getElem _)
+      (List.getElem?_eq_getElem _) ⟨e2, e3⟩
+  · refine hb buf[loc.start + 4] buf[loc.start + 5] (List.getElem?_eq_getElem _)
+      (List.getElem?_eq_getElem _) ?_
     rw [← rd16_toNat, e45, hsz]
 
 /-- the hypotheses on concrete buffers: protocol id 0x0001, and length field 7 for a 12-byte frame -/
@@ -220,7 +225,8 @@ example : ∀ p1 p0, (sampleFrame.set 3 0x01)[0 + 2]? = some p1 → (sampleFrame
   rw [this] at h3
   have e := (Option.some.inj h3).symm
   subst e
-  decide
+  intro h
+  exact absurd h.2 (by decide)
 
 example : ∀ l1 l0, (sampleFrame.set 5 0x07)[0 + 4]? = some l1 → (sampleFrame.set 5 0x07)[0 + 5]? = some l0 →
     l1.toNat * 256 + l0.toNat + 6 ≠ 12 := by
@@ -339,11 +345,11 @@ theorem tcp_decode_response_sound (buf : Bytes) (t : UInt16) (u : UInt8) (p : Re
 example : Tcp.decodeRequest ([0x42, 0x43] ++ sampleFrame) = .ok (some (0x0102, 0x11, .readCoils 1 2)) := by
   decide +kernel
 
-example : Tcp.decodeResponse ([0x42, 0x43] ++ [0x01, 0x02, 0x00, 0x00, 0x00, 0x04, 0x11, 0x01, 0x01, 0x05])
+example : Tcp.decodeResponse ([0x42] ++ [0x01, 0x02, 0x00, 0x00, 0x00, 0x04, 0x11, 0x01, 0x01, 0x05])
     = .ok (some (0x0102, 0x11, .ok (.readCoils { data := [5], quantity := 8 }))) := by
   decide +kernel
 
-example : Tcp.decodeResponse ([0x42, 0x43] ++ [0x01, 0x02, 0x00, 0x00, 0x00, 0x03, 0x11, 0x81, 0x02])
+example : Tcp.decodeResponse ([0x42] ++ [0x01, 0x02, 0x00, 0x00, 0x00, 0x03, 0x11, 0x81, 0x02])
     = .ok (some (0x0102, 0x11, .error { function := .readCoils, exception := .illegalDataAddress })) := by
   decide +kernel
 
